@@ -253,6 +253,38 @@ theorem hashlin_grow_optional {α : Type} [DecidableEq α] (a : A) (h : Hashlin 
   · rw [(g.hit hh).1]; exact linked_spec h iv d key
   · rw [(g.pass hh).1, ← insert_eq]; exact Hashlin.insert_spec h iv d key
 
+/-- **fail_contained**, all tables at once: for every state, every operation and every k smaller than
+    the number of allocation requests of that operation the outcome is defined (the model functions are
+    total: there is no crash outcome in the fixed code) and is either "error code, table untouched" or
+    "optional request absorbed, complete effect" — never a partial effect. -/
+theorem fail_contained :
+    (∀ (T : PfxTable) (op : POp) (k : Nat), k < preqs T op →
+      refusals (prun { budget := some k } T op).1.trace = 1 ∧
+      (((prun { budget := some k } T op).2.2 = .error ∧ (prun { budget := some k } T op).2.1 = T) ∨
+       ((∃ r, op = .remove r) ∨ (∃ s, op = .srcRemove s)) ∧ (prun { budget := some k } T op).2 = pmodel T op)) ∧
+    (∀ (T : SpkiTable), SInv T → ∀ (op : KOp) (k : Nat), k < kreqs T op →
+      refusals (krun { budget := some k } T op).1.trace = 1 ∧
+      (((krun { budget := some k } T op).2.2 = .error ∧ (krun { budget := some k } T op).2.1 = T) ∨
+       ((krun { budget := some k } T op).2.2 = (kmodel T op).2 ∧
+        (krun { budget := some k } T op).2.1.list = (kmodel T op).1.list ∧
+        (krun { budget := some k } T op).2.1.log = (kmodel T op).1.log ∧
+        (krun { budget := some k } T op).2.1.hasCb = (kmodel T op).1.hasCb ∧
+        SInv (krun { budget := some k } T op).2.1))) :=
+  ⟨fail_contained_pfx, fun T iv op k hk => fail_contained_spki T iv op k hk⟩
+
+/-- **a copy that reports success is complete** (whatever the oracle did on the way): the target of
+    `pfx_table_copy_except_socket` into an empty table holds exactly the records of the other sockets,
+    the target of `spki_table_copy_except_socket` gained exactly the entries of the other sockets.
+    (A copy that reports an error leaves a well-formed, partially filled target: see
+    `fail_keeps_invariant`; `rtr_sync` releases it: see `sync_no_leak`.) -/
+theorem copy_success_complete (a : A) (src : Nat) :
+    (∀ S D, TableWF S → TableWF D → D.recs = [] → (copyExceptF a S D src).2.2 = .success →
+      (copyExceptF a S D src).2.1.recs.Perm (S.recs.filter fun r => r.src != src)) ∧
+    (∀ S D, SInv D → (kcopyExceptF a S D src).2.2 = .success →
+      (kcopyExceptF a S D src).2.1.list = D.list ++ S.list.filter (fun e => e.src != src)) :=
+  ⟨fun S D hS hD hE h => copyExceptF_success a S D src hS hD hE h,
+   fun S D iv h => kcopyLoopF_success src S.list a D iv h⟩
+
 /-! ## 3. fail_keeps_invariant -/
 
 /-- **fail_keeps_invariant.**  Whatever the oracle does (any budget, any earlier trace), the table an
